@@ -55,32 +55,32 @@ def tw(q_runs, q_secs, t_runs, t_secs):
 
 
 PROPS = {
-    "C01": spec([reg("C01", 24000, 40, 4000000, 700), tw(4000, 25, 400000, 200)],
+    "C01": spec([reg("C01", 96000, 40, 4000000, 700), tw(8000, 25, 400000, 200)],
                 extra_assumptions=[TW_NOTE]),
-    "C02": spec([reg("C02", 24000, 40, 4000000, 780)]),
-    "C03": spec([reg("C03", 20000, 40, 4000000, 700), tw(3000, 20, 300000, 150)],
+    "C02": spec([reg("C02", 96000, 40, 4000000, 780)]),
+    "C03": spec([reg("C03", 80000, 40, 4000000, 700), tw(6000, 20, 300000, 150)],
                 extra_assumptions=[TW_NOTE]),
-    "C04": spec([reg("C04", 20000, 40, 4000000, 780)]),
-    "C05": spec([reg("C05", 10000, 40, 2000000, 600),
-                 reg("hash", 1600, 30, 400000, 600)],
+    "C04": spec([reg("C04", 80000, 40, 4000000, 780)]),
+    "C05": spec([reg("C05", 16000, 35, 2000000, 600),
+                 reg("hash", 1600, 20, 400000, 600)],
                 level="fault_enumeration",
                 extra_assumptions=[
                     "hook H1 (guarded) lets the plan choose the seed and the attempt budget of the hash search; with no plan value the shipped constants apply",
                     "the id ~0 (yomm2's invalid_type, the empty-bucket marker) is not used as a probe"]),
-    "C06": spec([reg("C06", 10000, 45, 2000000, 780)]),
-    "C07": spec([reg("C07", 12000, 45, 2000000, 700), tw(4000, 25, 400000, 200)],
+    "C06": spec([reg("C06", 30000, 45, 2000000, 780)]),
+    "C07": spec([reg("C07", 40000, 45, 2000000, 700), tw(8000, 25, 400000, 200)],
                 extra_assumptions=[TW_NOTE]),
-    "C08": spec([reg("C08", 16000, 45, 3000000, 700), tw(4000, 25, 400000, 200)],
+    "C08": spec([reg("C08", 60000, 45, 3000000, 700), tw(8000, 25, 400000, 200)],
                 extra_assumptions=[TW_NOTE]),
-    "C09": spec([reg("C09", 16000, 45, 3000000, 780)]),
-    "C10": spec([reg("C10", 12000, 45, 2000000, 780)]),
-    "C14": spec([reg("C14", 12000, 45, 2000000, 780)]),
-    "C15": spec([reg("C15", 16000, 45, 3000000, 780)],
+    "C09": spec([reg("C09", 60000, 45, 3000000, 780)]),
+    "C10": spec([reg("C10", 36000, 45, 2000000, 780)]),
+    "C14": spec([reg("C14", 40000, 45, 2000000, 780)]),
+    "C15": spec([reg("C15", 60000, 45, 3000000, 780)],
                 level="fault_enumeration"),
     "C16": {
         "engines": [{"binary": "yosched.tsan", "target": "build/yosched.tsan",
                      "name": "sched",
-                     "quick": {"runs": 16000, "secs": 45},
+                     "quick": {"runs": 48000, "secs": 45},
                      "thorough": {"runs": 3000000, "secs": 780}}],
         "level": "exploration",
         "rule": ("each run: a world on policy A updated before the threads "
@@ -105,7 +105,7 @@ PROPS = {
             "sensitivity shown with a counter added to method::resolve: "
             "reported on the first run, minimised to two one-call tasks"],
     },
-    "C17": spec([reg("C17", 24000, 40, 4000000, 780)]),
-    "C18": spec([reg("C18", 12000, 40, 2000000, 500),
-                 reg("list", 40000, 30, 4000000, 300)]),
+    "C17": spec([reg("C17", 96000, 40, 4000000, 780)]),
+    "C18": spec([reg("C18", 40000, 40, 2000000, 500),
+                 reg("list", 80000, 30, 4000000, 300)]),
 }
